@@ -38,9 +38,7 @@ Proof.
   unfold close_state. set (f := fun k => last_assign asg ls k nilv).
   unfold finish, shape in *. destruct rooted.
   - destruct Hshape as [W [D B]].
-    assert (T : is_tip (set_lens f t) = false).
-    { unfold is_tip. rewrite set_lens_degree, D. reflexivity. }
-    rewrite T. eexists. split; [reflexivity|].
+    eexists. split; [reflexivity|].
     apply good_tree_intro.
     + now rewrite set_lens_wf.
     + unfold binary. now rewrite set_lens_degree, D, set_lens_sub_all_bin, B.
@@ -62,9 +60,7 @@ Proof.
     rewrite (reroot_first_tip_root _ _ _ _ _ Dc).
     rewrite wf_sub_def in Wc. apply andb_true_iff in Wc as [U Wc]. apply Nat.eqb_eq in U.
     rewrite bin_sub_def in Bc. apply andb_true_iff in Bc as [_ Bc].
-    assert (T : is_tip (UNode n' c' (replace_up sl' (Some (e', UNode (tip_name 0) [] [None])))) = false).
-    { unfold is_tip, degree. simpl uslots. now rewrite length_replace_up, Dc. }
-    rewrite T. eexists. split; [reflexivity|].
+    eexists. split; [reflexivity|].
     apply good_tree_intro.
     + rewrite wf_def, n_up_replace_up, U. simpl. apply sub_all_replace_up; auto.
     + unfold binary, degree. simpl uslots. rewrite length_replace_up, Dc. simpl.
@@ -287,8 +283,10 @@ Proof.
   - destruct (Nat.ltb_spec n 2); [eauto|]. destruct (Nat.ltb_spec n 3); [simpl; eauto|lia].
 Qed.
 
-(** ** the documented minimum of the unrooted generators is 2 tips, and 2 tips crash *)
-Theorem unrooted_two_tips_crash ls :
-  uniform_tree 2 false [] ls = GPanic /\ yule_tree 2 false [] ls = GPanic /\
-  caterpillar_tree 2 false ls = GPanic.
+(** ** the documented minimum of the unrooted generators is 2 tips, but 2 tips are rejected:
+    RerootFirst finds no node with 3 neighbours and its error is returned *)
+Definition err_reroot_first : string := "No nodes with 3 neighors have been found for rerooting".
+Theorem unrooted_two_tips_rejected ls :
+  uniform_tree 2 false [] ls = GErr err_reroot_first /\ yule_tree 2 false [] ls = GErr err_reroot_first /\
+  caterpillar_tree 2 false ls = GErr err_reroot_first.
 Proof. repeat split. Qed.
